@@ -1040,6 +1040,49 @@ theorem exec_inv {w w' : World} {op : Op} {out : Out} (h : Inv w.s) (he : w.exec
         split at hw1
         · cases hw1
         · rw [inv_setF hw1]; exact h
+    | getData s d u ph i V =>
+      simp only [Except.map, World.getData] at he
+      split at he
+      · cases he
+      · rename_i r hr
+        obtain ⟨w1, vid, x⟩ := r
+        cases he
+        split at hr
+        · cases hr
+        · split at hr
+          · cases hr
+          · rename_i w2 vid2 x2 hg2
+            cases hr
+            exact (inv_getElem h (hsid s (by simp [Op.sids])) hg2).1
+    | setData s d u ph i x V =>
+      simp only [Except.map, World.setData] at he
+      split at he
+      · cases he
+      · rename_i r hr
+        obtain ⟨w1, vid⟩ := r
+        cases he
+        split at hr
+        · cases hr
+        · exact (inv_putElem h (hsid s (by simp [Op.sids])) hr).1
+    | getProp s d u V =>
+      simp only [Except.map] at he
+      split at he
+      · cases he
+      · cases he; exact h
+    | setProp s d u x V =>
+      simp only [Except.map, World.setProp] at he
+      split at he
+      · cases he
+      · rename_i w1 hw1
+        cases he
+        split at hw1
+        · cases hw1
+        · rw [inv_setF hw1]; exact h
+    | unitFor d u =>
+      simp only [Except.map] at he
+      split at he
+      · cases he
+      · cases he; exact h
 
 theorem step_inv {w : World} (op : Op) (h : Inv w.s) : Inv (w.step op).s := by
   unfold World.step
